@@ -208,6 +208,9 @@ def run(ctx):
             tol_k = np.array([oracle.marginal(pb.lin, oracle.z_column(pb.lin, pb.tagP[r], pb.rows["e"][r], pb.rows["omega"][r],
                                                                       pb.rows["M0"][r]), pb.tagP[r], pb.rows["e"][r],
                                               pb.s_seen[r], want_post=False)["tol"] for r in range(pb.N)])
+            # measured: how far each row's value moves when P, omega, M0, s move by the rounding of a unit conversion
+            sens = np.array([oracle.input_ulp_sensitivity(pb.lin, pb.tagP[r], pb.rows["e"][r], pb.rows["omega"][r], pb.rows["M0"][r],
+                                                          pb.s_seen[r]) for r in range(pb.N)])
         except Exception as e:
             ctx.exception(e, "base problem", desc)
             continue
@@ -231,7 +234,7 @@ def run(ctx):
                 # unit conversion changes the inputs by an ulp: the kernel tolerance is inflated by the sensitivity of the
                 # Kepler column to the phase, |M| / (1-e)^2 (same allowance as C01's alternative-unit comparison)
                 Mmax = 2 * np.pi * np.max(np.abs(pb.lin.t - pb.lin.t_ref)) / pb.tagP + 10
-                tol = 1e-8 * (1 + np.abs(ll_b)) + 2 * tol_k * (1 + 0.05 * Mmax / (1 - np.asarray(pb.rows["e"])) ** 2)
+                tol = 1e-8 * (1 + np.abs(ll_b)) + 2 * tol_k * (1 + 0.05 * Mmax / (1 - np.asarray(pb.rows["e"])) ** 2) + 16 * sens
                 ok = tol < 1e-4
                 ctx.evaluations += int(np.sum(ok))
                 ctx.count("rows_too_illconditioned", int(np.sum(~ok)))
